@@ -18,6 +18,7 @@ from ..model import (walk, dotted, call_name, kwarg, unparse, short, UNKNOWN,
 from ..cfg import cfg_of
 from ..flow import Deps, guards, loop_slice
 from .. import idioms as I
+from .c15 import StateEval, Uneval
 
 TMGR  = ('task_manager.py', 'TaskManager')
 PILOT = ('pilot.py', 'Pilot')
@@ -115,6 +116,7 @@ class Roles:
         self.d = Deps(f.node, implicit=False)
         self.tvars = set(tvars)
         self.pvar = pvar
+        self.allowed = {}
 
     def _deps(self, expr):
         return self.d.expr_depends(expr)
@@ -154,6 +156,49 @@ class Roles:
         return self.pvar in dep
 
 
+def _by_domain(prog, f, roles, atom, pol, final):
+    """evaluate a test on the task's / the pilot's state for every state of
+    the folded value table: the set of states for which the FAILED update
+    goes ahead decides the verdict"""
+    for kind, pred, tab in (
+            ('nonfinal', roles.is_task_state, '_task_state_values'),
+            ('pilotfinal', roles.is_pilot_state, '_pilot_state_values')):
+        if not any(pred(n) for n in walk(atom, nested=True)):
+            continue
+        if kind == 'nonfinal' and roles.about_pilot(atom) or \
+                kind == 'pilotfinal' and roles.about_task(atom):
+            continue
+        table = prog.const('states.py', tab)
+        domain = [s for s in table if s is not None]
+        ev = StateEval(prog, f, pred)
+        try:
+            allowed = {s for s in domain if ev.holds(atom, s) == pol}
+        except Uneval:
+            return None
+        roles.allowed[id(atom)] = allowed
+        fin = set(final)
+        if kind == 'nonfinal':
+            lost = sorted(set(domain) - fin - allowed)
+            if lost:
+                return (kind, 'wrong', 'the update is skipped for the '
+                        'non-final state(s) %s: tasks of the ending pilot in '
+                        'those states are not reported FAILED'
+                        % ', '.join(lost))
+            if not (fin & allowed):
+                return (kind, 'ok', '')
+            return (kind, 'partial', 'the final state(s) %s are still updated'
+                    % ', '.join(sorted(fin & allowed)))
+        lost = sorted(fin - allowed)
+        if lost:
+            return (kind, 'wrong', 'the tasks of a pilot that ends %s are not '
+                    'failed' % ', '.join(lost))
+        if allowed == fin:
+            return (kind, 'ok', '')
+        return (kind, 'partial', 'a pilot in the non-final state(s) %s takes '
+                'its tasks down' % ', '.join(sorted(allowed - fin)))
+    return None
+
+
 def classify(prog, f, roles, atom, pol, final):
     """(kind, verdict, text): kind in binding / nonfinal / pilotfinal / other /
     None (unrelated); verdict 'ok' | 'wrong' | 'unknown'"""
@@ -177,7 +222,11 @@ def classify(prog, f, roles, atom, pol, final):
                 len(r.elts) == 1 and roles.is_pilot_uid(r.elts[0]):
             good = isinstance(op, ast.In) == pol
             return ('binding', 'ok' if good else 'wrong', '')
-        # (a) / (c) final tests
+        # (a) / (c) final tests, decided over the finite state tables
+        r = _by_domain(prog, f, roles, atom, pol, final)
+        if r is not None:
+            return r
+        l, r = atom.left, atom.comparators[0]
         for kind, pred in (('nonfinal', roles.is_task_state),
                            ('pilotfinal', roles.is_pilot_state)):
             if not pred(l):
@@ -297,6 +346,17 @@ def r13_1(prog, rep, f, rid='R13.1'):
             hits = found[kind]
             good = [x for x in hits if x[2] == 'ok']
             bad  = [x for x in hits if x[2] == 'wrong']
+            part = [x for x in hits if x[2] == 'partial']
+            if part and not good and not bad:
+                # several partial tests may add up to the required set
+                sets = [roles.allowed[id(x[0])] for x in part]
+                joint = set.intersection(*sets)
+                fin = set(final)
+                if kind == 'nonfinal' and not (joint & fin) or \
+                        kind == 'pilotfinal' and joint == fin:
+                    good = part
+                else:
+                    bad = part
             if bad:
                 atom, pol, _, text = bad[0]
                 rep.bad(rid, f, '%s [%s: %s taken when %s]'
@@ -535,6 +595,7 @@ _UPD_NESTED = ("                        update = {'uid'             : task.uid,\
          "                                  'state'           : rps.FAILED}\n\n"
          "                        task._update(update)\n"
          "                        tasks.append(task.as_dict())\n")
+_NFT  = "                    if task.state in rps.FINAL:\n"
 _GUARDED = _HEAD + _CMT + _BIND + _NFIN + _UPD
 
 # the repair of F03 as an edit on the unrepaired text (kept for reference and
@@ -593,9 +654,30 @@ MUTATIONS = [
          rules=('R13.2',), edits=[
         ('pilot.py', "    def register_callback(self, cb, metric=rpc.PILOT_STATE, cb_data=None):",
                      "    def register_callback(self, cb, metric=None, cb_data=None):")]),
+    dict(name='R13.1 tasks in tmgr output staging are spared (value > AGENT_STAGING_OUTPUT)',
+         rules=('R13.1',), edits=[
+        (_TM, _NFT, "                    if rps._task_state_value(task.state) > \\\n                       rps._task_state_value(rps.AGENT_STAGING_OUTPUT):\n")]),
+    dict(name='R13.1 tasks in TMGR_STAGING_OUTPUT are spared', rules=('R13.1',), edits=[
+        (_TM, _NFT, "                    if rps._task_state_values[task.state] > \\\n                       rps._task_state_values[rps.TMGR_STAGING_OUTPUT_PENDING]:\n")]),
+    dict(name='R13.1 value test that no state satisfies', rules=('R13.1',), edits=[
+        (_TM, _NFT, "                    if rps._task_state_value(task.state) > \\\n                       rps._task_state_value(rps.DONE):\n")],
+         note='final tasks are updated again'),
+    dict(name='R13.1 tasks die with a pilot that merely became active',
+         rules=('R13.1',), edits=[
+        (_TM, "            if state in rps.FINAL:\n\n                self._log.debug('pilot %s is final', pid)",
+              "            if rps._pilot_state_value(state) >= \\\n               rps._pilot_state_value(rps.PMGR_ACTIVE):\n\n                self._log.debug('pilot %s is final', pid)")]),
 ]
 
 SILENT = [
+    dict(name='non-final test by value: >= value(DONE)', edits=[
+        (_TM, _NFT, "                    if rps._task_state_value(task.state) >= \\\n                       rps._task_state_value(rps.DONE):\n")]),
+    dict(name='non-final test by value table equality', edits=[
+        (_TM, _NFT, "                    if rps._task_state_values[task.state] == \\\n                       rps._task_state_values[rps.FAILED]:\n")]),
+    dict(name='non-final test split in two partial tests', edits=[
+        (_TM, _NFIN, "                    if task.state in [rps.DONE, rps.FAILED]:\n                        continue\n\n                    if task.state == rps.CANCELED:\n                        continue\n\n")]),
+    dict(name='pilot-final test by value: beyond PMGR_ACTIVE', edits=[
+        (_TM, "            if state in rps.FINAL:\n\n                self._log.debug('pilot %s is final', pid)",
+              "            if rps._pilot_state_value(state) > \\\n               rps._pilot_state_value(rps.PMGR_ACTIVE):\n\n                self._log.debug('pilot %s is final', pid)")]),
     dict(name='guards as one combined early continue', edits=[
         (_TM, _BIND + _NFIN,
               "                    if task.pilot != pid or task.state in rps.FINAL:\n                        continue\n\n")]),
